@@ -384,7 +384,10 @@ func (store *HStore) Set(ki *KeyInfo, p *Payload) error {
 	bkt := store.buckets[ki.BucketID]
 	atomic.AddInt64(&bkt.NumSet, 1)
 	if bkt.State != BUCKET_STAT_READY {
-		cmem.DBRL.SetData.SubSizeAndCount(p.CArray.Cap)
+		if p.Ver >= 0 {
+			// a delete payload was never counted in SetData
+			cmem.DBRL.SetData.SubSizeAndCount(p.CArray.Cap)
+		}
 		p.CArray.Free()
 		return nil
 	}
